@@ -19,7 +19,7 @@ static randomx_dataset g_ds;
 static std::vector<Family> g_fam_fast, g_fam_light;
 
 struct Pair {
-	std::unique_ptr<Engine> I, J; Cfg c;
+	std::unique_ptr<Engine> I, J; Cfg c; uint64_t compared_branches = 0, unparsed_branches = 0;
 	Pair(const Cfg& cfg) : c(cfg) {
 		int base = (cfg.light ? 0 : RANDOMX_FLAG_FULL_MEM) | (cfg.hard ? RANDOMX_FLAG_HARD_AES : 0);
 		I = make_engine(base, g_cache, &g_ds); J = make_engine(base | RANDOMX_FLAG_JIT, g_cache, &g_ds);
@@ -44,11 +44,12 @@ struct Pair {
 		if (fi != fj) d += "rounding mode interp=" + std::to_string(fi) + " jit=" + std::to_string(fj) + "; ";
 		// translation state: every CBRANCH must jump to the same instruction in both engines, whether or not it was taken in this run
 		{
-			randomx::InstructionByteCode* bc = bytecode_of(*I); randomx::JitCompilerX86* jc = jit_of(*J); int N = prog_size(c.v2); const uint8_t* code = jc->getCode();
-			for (int s = 0; s < N; ++s) if (bc[s].type == randomx::InstructionType::CBRANCH) {
-				int32_t off = jc->instructionOffsets[s]; int32_t rel; memcpy(&rel, code + off + 16, 4);
-				int32_t tgt = off + 20 + rel, want = jc->instructionOffsets[bc[s].target + 1];
-				if (tgt != want) { d += "CBRANCH in slot " + std::to_string(s) + ": JIT jumps to code offset " + std::to_string(tgt) + ", interpreter target is slot " + std::to_string(bc[s].target + 1) + " (offset " + std::to_string(want) + "); "; break; }
+			randomx::InstructionByteCode* bc = bytecode_of(*I); randomx::JitCompilerX86* jc = jit_of(*J); int N = prog_size(c.v2);
+			for (int s = 0; s + 1 < N; ++s) if (bc[s].type == randomx::InstructionType::CBRANCH) {
+				X86Branch xb; if (!decode_x86_cbranch(jc, s, jc->instructionOffsets[s + 1], xb)) { ++unparsed_branches; continue; }
+				int32_t want = jc->instructionOffsets[bc[s].target + 1];
+				if (xb.target_off != want) { d += "CBRANCH in slot " + std::to_string(s) + ": JIT jumps to code offset " + std::to_string(xb.target_off) + ", interpreter target is slot " + std::to_string(bc[s].target + 1) + " (offset " + std::to_string(want) + "); "; break; }
+				++compared_branches;
 			}
 		}
 		return d;
@@ -147,6 +148,7 @@ int main(int argc, char** argv) {
 			if (R.viol.size() >= 3) { R.incomplete = true; break; }
 		}
 		R.n["distinct_regfile_digests"] = digests.size();
+		for (auto& kv : pairs) if (kv.second) { R.n["branch_targets_compared"] += kv.second->compared_branches; R.n["branch_encodings_not_recognised"] += kv.second->unparsed_branches; }
 		return R;
 	}, false, 3600);
 
